@@ -791,4 +791,10 @@ example : executeSig noDb (fun _ => some ⟨[.str, .verbatim], none⟩) (cmdline
     (by decide)
 example : executeSig noDb (fun _ => some ⟨[.str], none⟩) (cmdline [116] [[97], [98]]) = .arity := by decide
 
+/-- **execute_is_a_function_of_the_parse.** `execute(line)` is `executeToks` of the lexer's token list: the command
+    receives what the parse of THIS line says, whatever was parsed, completed or executed before (the model has no
+    state; the parse cache of the code must behave like none). -/
+theorem execute_is_a_function_of_the_parse (db : UniDb) (cmds : Str → Option Sig) (line : Str) :
+    executeSig db cmds line = executeToks db cmds (lex line) := rfl
+
 end MitmVerif.Props.C45
